@@ -50,6 +50,10 @@ func runSolver(sp solverSpec, file string, timeoutS int) (verdict, output string
 	out := buf.String()
 	for _, ln := range strings.Split(out, "\n") {
 		ln = strings.TrimSpace(ln)
+		if strings.HasPrefix(ln, "(error") && (strings.Contains(ln, "open file") || strings.Contains(ln, "Couldn't open")) {
+			// the racing solver that answered first already removed the query file
+			return "error", out, ms
+		}
 		if strings.HasPrefix(ln, "(error") && !strings.Contains(ln, "model is not available") {
 			fmt.Fprintf(os.Stderr, "solver error (%s) on %s: %s\n", sp.name, file, ln)
 			return "error", out, ms
